@@ -158,10 +158,16 @@ where
     /// See [connection shutdown](https://www.rfc-editor.org/rfc/rfc9114.html#connection-shutdown) for more information.
     #[cfg_attr(feature = "tracing", instrument(skip_all, level = "trace"))]
     pub async fn shutdown(&mut self, max_requests: usize) -> Result<(), ConnectionError> {
-        let max_id = self
-            .last_accepted_stream
-            .map(|id| id + max_requests)
-            .unwrap_or(StreamId::FIRST_REQUEST);
+        //= https://www.rfc-editor.org/rfc/rfc9114#section-5.2
+        //# The GOAWAY frame contains an identifier that
+        //# indicates to the receiver the range of requests or pushes that were or
+        //# might be processed in this connection.
+        // The identifier is the first request that will NOT be processed: every stream at or
+        // above it is rejected, so it lies above all accepted streams and the grace interval.
+        let max_id = match self.last_accepted_stream {
+            Some(id) => id + max_requests.saturating_add(1),
+            None => StreamId::FIRST_REQUEST + max_requests,
+        };
 
         self.inner.shutdown(&mut self.sent_closing, max_id).await
     }
@@ -200,7 +206,7 @@ where
                     // incoming requests not belonging to the grace interval. It's possible that
                     // some acceptable request streams arrive after rejected requests.
                     if let Some(max_id) = self.sent_closing {
-                        if s.send_id() > max_id {
+                        if s.send_id() >= max_id {
                             s.stop_sending(Code::H3_REQUEST_REJECTED.value());
                             s.reset(Code::H3_REQUEST_REJECTED.value());
                             if self.poll_requests_completion(cx).is_ready() {
@@ -209,7 +215,11 @@ where
                             continue;
                         }
                     }
-                    self.last_accepted_stream = Some(s.send_id());
+                    // Streams can be accepted out of order: the limit is based on the largest.
+                    self.last_accepted_stream = Some(match self.last_accepted_stream {
+                        Some(last) if last > s.send_id() => last,
+                        _ => s.send_id(),
+                    });
                     self.ongoing_streams.insert(s.send_id());
                     Poll::Ready(Ok(Some(s)))
                 }
